@@ -1,7 +1,31 @@
-"""C10 check configuration (data only)."""
+"""C10 check configuration."""
+import json
+import os
+
 from propbase import KERNEL, HARNESS
 
+# what a run must have reached to count as evidence for the branches named in level_text / assumptions
+REQUIRED_TAGS = ["factor_double_compared=true", "factor_inexact=true", "factor_filtered_double=true", "model_compared=true",
+                 "model_compared=false", "huge_ct=true", "scroll_den0=true", "ppc=varied", "fp_siblings_overlap=true",
+                 "fp_saturating_extent=true", "route=ctor", "route=ref", "route=json", "tiny_ct=true"]
+
+
+def require_reach(ctx):
+    """a run whose generated cases miss one of the required kinds is reported (not silently accepted)"""
+    if ctx.get("replay"):
+        return {}
+    dist = json.load(open(os.path.join(ctx["build"], "cases", "C10", "meta.json"))).get("distribution", {})
+    cov = {"reach " + t: dist.get(t, 0) for t in REQUIRED_TAGS}
+    missing = [t for t in REQUIRED_TAGS if not dist.get(t, 0)]
+    violations = []
+    if missing:
+        violations.append({"kind": "broken-correspondence",
+                           "what": "the generated cases did not reach: %s (generator changed?)" % ", ".join(missing), "case": {}})
+    return {"violations": violations, "coverage": cov}
+
+
 PROP = {'gen': [],
+ 'extra': [require_reach],
  'coq_props': ['theories/Props/C10.vo'],
  'coq_corr': ['theories/Corr/C10Corr.vo'],
  'props_file': 'theories/Props/C10.v',
